@@ -604,8 +604,11 @@ pub(crate) fn fault(pm_of: impl Fn(&Buggify) -> u32, kind: &'static str) -> bool
 pub(crate) fn spawn_should_fail(name: &Option<String>) -> bool {
     let Some(c) = ctx() else { return false };
     let mut st = c.sim.st.lock().unwrap();
+    // a fallible, named spawn made by the code under test (thread::Builder::spawn returns an
+    // io::Result the caller has to handle); never the pool's own workers or the harness's threads.
+    // The configured suffix is the name such threads have today; a renamed thread still qualifies.
     let applies = match (&st.buggify.spawn_fail_suffix, name) {
-        (Some(sfx), Some(n)) => n.ends_with(sfx.as_str()),
+        (Some(sfx), Some(n)) => n.ends_with(sfx.as_str()) || (!n.contains("pool") && !n.starts_with("client-") && !n.starts_with("sim-")),
         _ => false,
     };
     if !applies {
